@@ -671,7 +671,7 @@ fn main() {
             let j = (idx / 3) * 2 + (idx % 3) - 1;     // 0, 1, 2, … over the faulty projects
             if j < plan_kinds.len() {
                 kinds.push((plan_kinds[j], None));
-                if !KNOWN_FAULT_KINDS.contains(&plan_kinds[j]) && rng.chance(1, 3) { kinds.push((*rng.pick(FAULT_KINDS), None)); }
+                if !KNOWN_FAULT_KINDS.contains(&plan_kinds[j]) && !plan_kinds[j].contains("deep") && !plan_kinds[j].contains("wide") && rng.chance(1, 3) { kinds.push((*rng.pick(FAULT_KINDS), None)); }
             } else if j < plan_kinds.len() + PAIRS.len() {
                 let (a, c) = PAIRS[j - plan_kinds.len()];
                 kinds.push((a, Some(0))); kinds.push((c, Some(1))); pair = true;
